@@ -12,8 +12,7 @@ import (
 	"bytes"
 	"fmt"
 	"io"
-	"os"
-	"runtime/pprof"
+	"runtime/debug"
 	"strings"
 	"time"
 
@@ -118,6 +117,7 @@ func contentClasses(thorough bool) []contentClass {
 type value struct {
 	li, ci int
 	s      string
+	un     string // reference unescaping of s
 }
 
 func buildValues(classes []contentClass) []value {
@@ -128,7 +128,7 @@ func buildValues(classes []contentClass) []value {
 			if len(s) != n {
 				panic(fmt.Sprintf("harness bug: content class %s produced %d bytes for length %d", c.name, len(s), n))
 			}
-			vs = append(vs, value{li, ci, s})
+			vs = append(vs, value{li, ci, s, refUnescape(s)})
 		}
 	}
 	return vs
@@ -202,6 +202,9 @@ type setup struct {
 	roles    []role
 	cfg      *fluentdforward.Config
 	envOrder []string
+	fill     []string           // values of all slots; [0], [1] are overwritten per case
+	keyBytes int                // total length of all field names
+	ser      base.LogSerializer // created on first use, lives as long as the setup (one setup at a time per process)
 }
 
 func holder(v bconfig.LogRewriterConfig) bconfig.LogRewriterConfigHolder {
@@ -264,7 +267,36 @@ func newSetup(lay layout, roleA, roleB role) *setup {
 	if err := st.cfg.VerifyConfig(schema); err != nil {
 		panic(fmt.Sprintf("harness bug: configuration rejected: %v", err))
 	}
+	st.fill = make([]string, lay.nfields+lay.reserved)
+	for i := 2; i < lay.nfields; i++ {
+		st.fill[i] = st.fillerValue(i)
+	}
+	for i := lay.nfields; i < len(st.fill); i++ {
+		st.fill[i] = fmt.Sprintf("RESERVED-SLOT-%d-must-not-be-emitted", i)
+	}
+	for _, n := range st.names {
+		st.keyBytes += len(n)
+	}
 	return st
+}
+
+// poisonBytes is 0xC1 repeated: the one code MessagePack never uses, so stale buffer contents cannot pass for data.
+var poisonBytes = strings.Repeat("\xc1", 600*1024)
+
+// prepare returns the setup's serializer with its buffer in a state that is a function of the case alone: the first n
+// bytes (and a short deterministic header) are overwritten by serializing a record whose only non-empty field is the
+// environment field "host" = 0xC1 x n. The serializer object itself is long-lived, as in the agent.
+func (st *setup) prepare(n int) base.LogSerializer {
+	if st.ser == nil {
+		st.ser = st.cfg.NewSerializer(logger.Root(), st.schema, "tag")
+	}
+	fields := make(base.LogFields, len(st.fill))
+	fields[2] = poisonBytes[:n]
+	out := st.ser.SerializeRecord(&base.LogRecord{Fields: fields, RawLength: n, Timestamp: time.Unix(0, 0)})
+	if len(out) < n {
+		panic("harness bug: poison record was not serialized")
+	}
+	return st.ser
 }
 
 func (st *setup) fillerValue(i int) string {
@@ -354,18 +386,45 @@ func refUnescape(s string) string {
 	return string(out)
 }
 
+// parts is a value given as the concatenation of its parts (so that 64 KiB values need not be copied to be compared)
+type parts []string
+
+func (p parts) size() int {
+	n := 0
+	for _, s := range p {
+		n += len(s)
+	}
+	return n
+}
+
+func (p parts) equal(got []byte) bool {
+	if len(got) != p.size() {
+		return false
+	}
+	off := 0
+	for _, s := range p {
+		if string(got[off:off+len(s)]) != s { // no allocation: the compiler compares in place
+			return false
+		}
+		off += len(s)
+	}
+	return true
+}
+
+func (p parts) join() string { return strings.Join(p, "") }
+
 type expectation struct {
-	top     map[string][]string // key -> acceptable values (more than one only where the documentation is silent)
-	env     map[string]string
-	secs    uint32
-	nanos   uint32
-	primary map[string]string // key -> the first (preferred) acceptable value, for messages
+	top   map[string][]parts // key -> acceptable values (more than one only where the documentation is silent)
+	env   map[string]string
+	secs  uint32
+	nanos uint32
 }
 
 // expected computes the visible fields of a record: non-empty, non-hidden, non-environment fields at the top level (a
-// rewritten field holds its rewrite), all environment fields nested, empty ones included.
-func (st *setup) expected(fields []string, unescaped bool, ts stamp) *expectation {
-	ex := &expectation{top: map[string][]string{}, env: map[string]string{}, secs: uint32(ts.sec), nanos: uint32(ts.ns)}
+// rewritten field holds its rewrite), all environment fields nested, empty ones included. unesc[i] is the reference
+// unescaping of fields[i] for the two distinguished fields.
+func (st *setup) expected(fields []string, unesc [2]string, unescaped bool, ts stamp) *expectation {
+	ex := &expectation{top: make(map[string][]parts, len(st.names)), env: make(map[string]string, 4), secs: uint32(ts.sec), nanos: uint32(ts.ns)}
 	for i, name := range st.names {
 		v := fields[i]
 		switch r := st.roles[i]; {
@@ -374,31 +433,23 @@ func (st *setup) expected(fields []string, unescaped bool, ts stamp) *expectatio
 		case r == rHidden:
 		case v == "":
 		case !r.rewritten():
-			ex.top[name] = []string{v}
+			ex.top[name] = []parts{{v}}
 		default:
 			body := v
 			if r.unescapes() && !unescaped {
-				body = refUnescape(v)
+				body = unesc[i]
 			}
-			var acc []string
-			if r.inlines() {
-				other := 1 - i // A inlines B, B inlines A
-				ov := fields[other]
-				if ov != "" {
-					acc = append(acc, st.names[other]+"="+ov+" "+body)
-					if r.unescapes() && !unescaped {
-						// the documentation does not say whether a later "unescape" step also applies to the inlined prefix
-						if alt := st.names[other] + "=" + refUnescape(ov) + " " + body; alt != acc[0] {
-							acc = append(acc, alt)
-						}
-					}
-				} else {
-					acc = append(acc, body)
+			other := 1 - i // A inlines B, B inlines A
+			if r.inlines() && fields[other] != "" {
+				acc := []parts{{st.names[other], "=", fields[other], " ", body}}
+				if r.unescapes() && !unescaped && unesc[other] != fields[other] {
+					// the documentation does not say whether a later "unescape" step also applies to the inlined prefix
+					acc = append(acc, parts{st.names[other], "=", unesc[other], " ", body})
 				}
+				ex.top[name] = acc
 			} else {
-				acc = append(acc, body)
+				ex.top[name] = []parts{{body}}
 			}
-			ex.top[name] = acc
 		}
 	}
 	return ex
@@ -407,7 +458,10 @@ func (st *setup) expected(fields []string, unescaped bool, ts stamp) *expectatio
 // ---------------------------------------------------------------------------------------------------------------
 // independent decoding
 
-type kv struct{ k, v string }
+type kv struct {
+	k string
+	v []byte // aliases the stream
+}
 
 type decodedEvent struct {
 	extType  int8
@@ -421,10 +475,39 @@ type decodedEvent struct {
 }
 
 func isStrOrBin(c codes.Code) bool { return codes.IsString(c) || codes.IsBin(c) }
+func isMap(c codes.Code) bool      { return codes.IsFixedMap(c) || c == codes.Map16 || c == codes.Map32 }
+
+type eventReader struct {
+	b []byte
+	r *bytes.Reader
+	d *msgpack.Decoder
+}
+
+// str reads one str/bin value: the header through the msgpack library, the payload as a slice of the stream
+func (er *eventReader) str(what string) ([]byte, string, string) {
+	c, err := er.d.PeekCode()
+	if err != nil {
+		return nil, "malformed:" + what, fmt.Sprintf("%s: %v", what, err)
+	}
+	if !isStrOrBin(c) {
+		return nil, "shape:" + what + "-type", fmt.Sprintf("%s has code 0x%02x, want a string", what, byte(c))
+	}
+	n, err := er.d.DecodeBytesLen()
+	if err != nil {
+		return nil, "malformed:" + what, fmt.Sprintf("%s header: %v", what, err)
+	}
+	off := len(er.b) - er.r.Len()
+	if n < 0 || off+n > len(er.b) {
+		return nil, "malformed:" + what, fmt.Sprintf("%s announces %d bytes at offset %d but the stream ends at %d", what, n, off, len(er.b))
+	}
+	er.r.Seek(int64(n), io.SeekCurrent)
+	return er.b[off : off+n], "", ""
+}
 
 func decodeEvent(b []byte) (*decodedEvent, string, string) {
 	r := bytes.NewReader(b)
 	d := msgpack.NewDecoder(r) // *bytes.Reader is used unbuffered, so r.Len() tells the bytes consumed
+	er := &eventReader{b, r, d}
 	ev := &decodedEvent{}
 	n, err := d.DecodeArrayLen()
 	if err != nil {
@@ -457,7 +540,7 @@ func decodeEvent(b []byte) (*decodedEvent, string, string) {
 	if err != nil {
 		return nil, "malformed:record-map", fmt.Sprintf("record: %v", err)
 	}
-	if !(codes.IsFixedMap(c) || c == codes.Map16 || c == codes.Map32) {
+	if !isMap(c) {
 		return nil, "shape:record-not-map", fmt.Sprintf("record is not a map (code 0x%02x)", byte(c))
 	}
 	m, err := d.DecodeMapLen()
@@ -465,24 +548,18 @@ func decodeEvent(b []byte) (*decodedEvent, string, string) {
 		return nil, "malformed:record-map", fmt.Sprintf("record map header: %v", err)
 	}
 	for i := 0; i < m; i++ {
-		c, err := d.PeekCode()
-		if err != nil {
-			return nil, "malformed:record-key", fmt.Sprintf("record key %d of %d: %v", i, m, err)
+		kb, key, msg := er.str("record-key")
+		if key != "" {
+			return nil, key, fmt.Sprintf("entry %d of %d: %s", i, m, msg)
 		}
-		if !isStrOrBin(c) {
-			return nil, "shape:record-key-type", fmt.Sprintf("record key %d has code 0x%02x, want a string", i, byte(c))
-		}
-		key, err := d.DecodeString()
-		if err != nil {
-			return nil, "malformed:record-key", fmt.Sprintf("record key %d of %d: %v", i, m, err)
-		}
-		c, err = d.PeekCode()
-		if err != nil {
-			return nil, "malformed:record-value", fmt.Sprintf("value of %q: %v", clipS(key), err)
-		}
-		if key == "environment" {
+		k := string(kb)
+		if k == "environment" {
 			ev.envCount++
-			if !(codes.IsFixedMap(c) || c == codes.Map16 || c == codes.Map32) {
+			c, err := d.PeekCode()
+			if err != nil {
+				return nil, "malformed:environment", fmt.Sprintf("environment: %v", err)
+			}
+			if !isMap(c) {
 				return nil, "shape:environment-not-map", fmt.Sprintf("environment is not a map (code 0x%02x)", byte(c))
 			}
 			em, err := d.DecodeMapLen()
@@ -490,33 +567,23 @@ func decodeEvent(b []byte) (*decodedEvent, string, string) {
 				return nil, "malformed:environment", fmt.Sprintf("environment map header: %v", err)
 			}
 			for j := 0; j < em; j++ {
-				ek, err := d.DecodeString()
-				if err != nil {
-					return nil, "malformed:environment", fmt.Sprintf("environment key %d of %d: %v", j, em, err)
+				ekb, key, msg := er.str("environment-key")
+				if key != "" {
+					return nil, key, fmt.Sprintf("environment entry %d of %d: %s", j, em, msg)
 				}
-				c, err := d.PeekCode()
-				if err != nil {
-					return nil, "malformed:environment", fmt.Sprintf("environment value of %q: %v", clipS(ek), err)
+				evb, key, msg := er.str("environment-value")
+				if key != "" {
+					return nil, key, fmt.Sprintf("environment[%q]: %s", clipS(string(ekb)), msg)
 				}
-				if !isStrOrBin(c) {
-					return nil, "shape:environment-value-type", fmt.Sprintf("environment value of %q has code 0x%02x, want a string", clipS(ek), byte(c))
-				}
-				evv, err := d.DecodeString()
-				if err != nil {
-					return nil, "malformed:environment", fmt.Sprintf("environment value of %q: %v", clipS(ek), err)
-				}
-				ev.env = append(ev.env, kv{ek, evv})
+				ev.env = append(ev.env, kv{string(ekb), evb})
 			}
 			continue
 		}
-		if !isStrOrBin(c) {
-			return nil, "shape:record-value-type", fmt.Sprintf("value of %q has code 0x%02x, want a string", clipS(key), byte(c))
+		vb, key, msg := er.str("record-value")
+		if key != "" {
+			return nil, key, fmt.Sprintf("record[%q]: %s", clipS(k), msg)
 		}
-		val, err := d.DecodeString()
-		if err != nil {
-			return nil, "malformed:record-value", fmt.Sprintf("value of %q: %v", clipS(key), err)
-		}
-		ev.top = append(ev.top, kv{key, val})
+		ev.top = append(ev.top, kv{k, vb})
 	}
 	ev.consumed = len(b) - r.Len()
 	return ev, "", ""
@@ -547,6 +614,15 @@ func describeDiff(got, want string) string {
 	return fmt.Sprintf("got %d bytes, want %d bytes; first difference at offset %d: got ...%s, want ...%s", len(got), len(want), i, win(got), win(want))
 }
 
+func matchAny(acc []parts, got []byte) bool {
+	for _, a := range acc {
+		if a.equal(got) {
+			return true
+		}
+	}
+	return false
+}
+
 // ---------------------------------------------------------------------------------------------------------------
 // one case
 
@@ -565,16 +641,13 @@ func (st *setup) roleOf(name string) string {
 	return "unknown-key"
 }
 
-func (st *setup) check(ctx *seq.Ctx, va, vb string, unescaped bool, ts stamp) (string, string) {
+func (st *setup) check(ctx *seq.Ctx, a, b *value, unescaped bool, ts stamp) (string, string) {
+	va, vb := a.s, b.s
+	unesc := [2]string{a.un, b.un}
 	nslots := st.lay.nfields + st.lay.reserved
 	fieldStrings := make([]string, nslots)
+	copy(fieldStrings, st.fill)
 	fieldStrings[0], fieldStrings[1] = va, vb
-	for i := 2; i < st.lay.nfields; i++ {
-		fieldStrings[i] = st.fillerValue(i)
-	}
-	for i := st.lay.nfields; i < nslots; i++ {
-		fieldStrings[i] = fmt.Sprintf("RESERVED-SLOT-%d-must-not-be-emitted", i)
-	}
 	fields := make(base.LogFields, nslots)
 	raw := 0
 	for i, s := range fieldStrings {
@@ -584,17 +657,25 @@ func (st *setup) check(ctx *seq.Ctx, va, vb string, unescaped bool, ts stamp) (s
 	if raw > defs.InputLogMaxRecordBytes {
 		panic("harness bug: record larger than the configured record limit")
 	}
-	ex := st.expected(fieldStrings, unescaped, ts)
+	ex := st.expected(fieldStrings, unesc, unescaped, ts)
 
-	// fresh serializer (fresh buffer) and fresh record for every case
-	serializer := st.cfg.NewSerializer(logger.Root(), st.schema, "tag")
+	// long-lived serializer whose buffer is first overwritten with 0xC1 beyond anything this case can produce; fresh record
+	bound := raw + 2*st.keyBytes + 8*len(st.names) + 256
+	for i := 0; i < 2; i++ {
+		if st.roles[i].inlines() {
+			bound += len(fieldStrings[1-i]) + len(st.names[1-i]) + 2
+		}
+	}
+	serializer := st.prepare(bound)
 	record := &base.LogRecord{Fields: fields, RawLength: raw, Timestamp: ts.time(), Unescaped: unescaped}
-	stream := serializer.SerializeRecord(record)
-	out := []byte(stream)
+	out := []byte(serializer.SerializeRecord(record))
 
 	cover := func(name string) { ctx.Groups["cover:"+name]++ }
 	if len(out) == 0 {
 		return "empty-output", "SerializeRecord returned an empty stream for a record within the configured limits"
+	}
+	if len(out) > bound {
+		return "harness:poison-bound", fmt.Sprintf("output of %d bytes exceeds the harness's bound %d", len(out), bound)
 	}
 	ev, key, msg := decodeEvent(out)
 	if key != "" {
@@ -607,7 +688,7 @@ func (st *setup) check(ctx *seq.Ctx, va, vb string, unescaped bool, ts stamp) (s
 		return "time:mismatch", fmt.Sprintf("EventTime decodes to %d.%09d, the record's timestamp is %d.%09d", ev.secs, ev.nanos, ex.secs, ex.nanos)
 	}
 	// top-level fields
-	seen := map[string]bool{}
+	seen := make(map[string]bool, len(ev.top))
 	for _, p := range ev.top {
 		if seen[p.k] {
 			return "fields:duplicate-key", fmt.Sprintf("key %q appears twice in the record map", clipS(p.k))
@@ -617,13 +698,7 @@ func (st *setup) check(ctx *seq.Ctx, va, vb string, unescaped bool, ts stamp) (s
 		if !ok {
 			return "fields:unexpected:" + st.roleOf(p.k), fmt.Sprintf("key %q (%d-byte value) is emitted but is not a visible field of the record", clipS(p.k), len(p.v))
 		}
-		match := false
-		for _, a := range acc {
-			if a == p.v {
-				match = true
-			}
-		}
-		if !match {
+		if !matchAny(acc, p.v) {
 			role := st.roleOf(p.k)
 			k := "value:" + role
 			idx := 0
@@ -631,30 +706,27 @@ func (st *setup) check(ctx *seq.Ctx, va, vb string, unescaped bool, ts stamp) (s
 				idx = 1
 			}
 			if (p.k == nameA || p.k == nameB) && st.roles[idx].unescapes() && !unescaped {
-				// classify the known cross-field effect: this field was copied escaped although the record was not marked unescaped
-				rawAcc := st.expected(fieldStrings, true, ts).top[p.k]
-				for _, a := range rawAcc {
-					if a == p.v {
-						k = "value:unescape-skipped:" + role
-						if idx == 1 && st.roles[0].unescapes() && va != "" {
-							k = "value:unescape-skipped-after-earlier-unescape-field"
-						}
+				// classify: the field was copied escaped although the record was not marked unescaped
+				if matchAny(st.expected(fieldStrings, unesc, true, ts).top[p.k], p.v) {
+					k = "value:unescape-skipped:" + role
+					if idx == 1 && st.roles[0].unescapes() && va != "" {
+						k = "value:unescape-skipped-after-earlier-unescape-field"
 					}
 				}
 			}
-			return k, fmt.Sprintf("field %q: %s", p.k, describeDiff(p.v, acc[0]))
+			return k, fmt.Sprintf("field %q: %s", p.k, describeDiff(string(p.v), acc[0].join()))
 		}
 	}
 	for k := range ex.top {
 		if !seen[k] {
-			return "fields:missing:" + st.roleOf(k), fmt.Sprintf("visible field %q (%d bytes expected) is missing from the record map", clipS(k), len(ex.top[k][0]))
+			return "fields:missing:" + st.roleOf(k), fmt.Sprintf("visible field %q (%d bytes expected) is missing from the record map", clipS(k), ex.top[k][0].size())
 		}
 	}
 	// environment
 	if ev.envCount != 1 {
 		return "env:count", fmt.Sprintf("the record map has %d \"environment\" entries, want exactly 1", ev.envCount)
 	}
-	seenEnv := map[string]bool{}
+	seenEnv := make(map[string]bool, len(ev.env))
 	for _, p := range ev.env {
 		if seenEnv[p.k] {
 			return "env:duplicate-key", fmt.Sprintf("environment key %q appears twice", clipS(p.k))
@@ -664,8 +736,8 @@ func (st *setup) check(ctx *seq.Ctx, va, vb string, unescaped bool, ts stamp) (s
 		if !ok {
 			return "env:unexpected:" + st.roleOf(p.k), fmt.Sprintf("environment key %q is not an environment field", clipS(p.k))
 		}
-		if want != p.v {
-			return "env:value:" + st.roleOf(p.k), fmt.Sprintf("environment field %q: %s", p.k, describeDiff(p.v, want))
+		if want != string(p.v) {
+			return "env:value:" + st.roleOf(p.k), fmt.Sprintf("environment field %q: %s", p.k, describeDiff(string(p.v), want))
 		}
 	}
 	for k := range ex.env {
@@ -686,14 +758,8 @@ func (st *setup) check(ctx *seq.Ctx, va, vb string, unescaped bool, ts stamp) (s
 	}
 	for k, acc := range ex.top {
 		got, _ := entry.Record[k].(string)
-		match := false
-		for _, a := range acc {
-			if a == got {
-				match = true
-			}
-		}
-		if !match {
-			return "fluentlib:value", fmt.Sprintf("EventEntry.Record[%q]: %s", clipS(k), describeDiff(got, acc[0]))
+		if !matchAny(acc, []byte(got)) {
+			return "fluentlib:value", fmt.Sprintf("EventEntry.Record[%q]: %s", clipS(k), describeDiff(got, acc[0].join()))
 		}
 	}
 	envMap, ok := entry.Record["environment"].(map[string]interface{})
@@ -730,7 +796,7 @@ func (st *setup) check(ctx *seq.Ctx, va, vb string, unescaped bool, ts stamp) (s
 		} else if r.inlines() {
 			cover("inline-prefix-absent")
 		}
-		actual := len(ex.top[st.names[i]][0])
+		actual := ex.top[st.names[i]][0].size()
 		switch {
 		case reserved >= 65536 && actual < 65536:
 			cover("rewrite-reserved-str32-actual<65536")
@@ -762,15 +828,53 @@ func enumerate(ctx *seq.Ctx) {
 	classes := contentClasses(thorough)
 	values := buildValues(classes)
 	tss := stamps(thorough)
-	layouts := []layout{{3, 0}, {16, 0}}
-	if thorough {
-		layouts = append(layouts, layout{14, 0}, layout{15, 0}, layout{3, 2}, layout{16, 2})
+	// the first two layouts are "primary"; the others get the full value product only in the thorough tier
+	layouts := []layout{{3, 0}, {16, 0}, {14, 0}, {15, 0}, {3, 2}, {16, 2}}
+	// value sets: "listed" = the 11 lengths x 14 content classes named in the plan; "all" adds the thorough-only classes;
+	// "small" = lengths {0,1,16,65536} x {ascii, mixed}
+	listedClass := func(ci int) bool {
+		name := classes[ci].name
+		for _, c := range contentClasses(false) {
+			if c.name == name {
+				return true
+			}
+		}
+		return false
 	}
-	ctx.Note("domain", fmt.Sprintf("%d layouts x %d x %d roles x 2 flags x %d timestamps x (%d lengths x %d content classes)^2",
-		len(layouts), numRoles, numRoles, len(tss), len(lengthClasses), len(classes)))
+	isListed := make([]bool, len(values))
+	isSmall := make([]bool, len(values))
+	for i, v := range values {
+		isListed[i] = listedClass(v.ci)
+		n := lengthClasses[v.li]
+		isSmall[i] = (n == 0 || n == 1 || n == 16 || n == 65536) && (classes[v.ci].name == "ascii" || classes[v.ci].name == "mixed")
+	}
+	// timestamps of the big value product: ns=999999999 and the first second after the 2038 boundary
+	valueStamps := map[string]bool{"ns999999999": true, "2038-first": true}
+	ctx.Note("domain", fmt.Sprintf("%d layouts x %d x %d roles x 2 flags; %d timestamps; %d lengths x %d content classes", len(layouts), numRoles, numRoles, len(tss), len(lengthClasses), len(classes)))
+
+	// pairOK decides which (A value, B value) pairs are crossed with timestamp ti:
+	//   quick:    value timestamps: listed x listed;                      other timestamps: small x small
+	//             (layouts other than 3+0 and 16+0: small x small at every timestamp)
+	//   thorough: value timestamps: all x listed  U  listed x all;        other timestamps: listed x listed
+	// (thorough therefore contains the full product of the plan: 6 timestamps x listed x listed, and more)
+	pairOK := func(li int, ts stamp, ai, bi int) bool {
+		if !thorough && li >= 2 {
+			return isSmall[ai] && isSmall[bi]
+		}
+		if valueStamps[ts.name] {
+			if thorough {
+				return isListed[ai] || isListed[bi]
+			}
+			return isListed[ai] && isListed[bi]
+		}
+		if thorough {
+			return isListed[ai] && isListed[bi]
+		}
+		return isSmall[ai] && isSmall[bi]
+	}
 
 	// ---- main product
-	for _, lay := range layouts {
+	for li, lay := range layouts {
 		for ra := role(0); ra < numRoles; ra++ {
 			for rb := role(0); rb < numRoles; rb++ {
 				if ctx.Stop() {
@@ -785,6 +889,9 @@ func enumerate(ctx *seq.Ctx) {
 								return
 							}
 							for bi := range values {
+								if !pairOK(li, ts, ai, bi) {
+									continue
+								}
 								if !ctx.Mine() {
 									ctx.Skip()
 									continue
@@ -794,7 +901,7 @@ func enumerate(ctx *seq.Ctx) {
 									roleNames[rb], lengthClasses[b.li], classes[b.ci].name, ui, ti)
 								nontrivial := (a.s != "" && ra != rHidden) || (b.s != "" && rb != rHidden)
 								unescaped, ts := ui == 1, ts
-								ctx.Case(id, nontrivial, id, func() (string, string) { return st.check(ctx, a.s, b.s, unescaped, ts) })
+								ctx.Case(id, nontrivial, id, func() (string, string) { return st.check(ctx, a, b, unescaped, ts) })
 							}
 						}
 					}
@@ -806,9 +913,8 @@ func enumerate(ctx *seq.Ctx) {
 	// ---- environment maps on both sides of the fixmap boundary (15 / 16 / 17 environment fields): layouts of 17-21 named
 	// fields whose extra fields are all environment fields; reduced value set for A and B (lengths 0, 1, 16, 65536)
 	small := []value{}
-	for _, v := range values {
-		n := lengthClasses[v.li]
-		if (n == 0 || n == 1 || n == 16 || n == 65536) && (classes[v.ci].name == "ascii" || classes[v.ci].name == "mixed") {
+	for i, v := range values {
+		if isSmall[i] {
 			small = append(small, v)
 		}
 	}
@@ -833,7 +939,7 @@ func enumerate(ctx *seq.Ctx) {
 							id := fmt.Sprintf("envmap/s%d/A=%s:%d:%s/B=%s:%d:%s/u%d", nf, roleNames[ra], lengthClasses[a.li], classes[a.ci].name,
 								roleNames[rb], lengthClasses[b.li], classes[b.ci].name, ui)
 							unescaped := ui == 1
-							ctx.Case(id, true, id, func() (string, string) { return st.check(ctx, a.s, b.s, unescaped, tss[3]) })
+							ctx.Case(id, true, id, func() (string, string) { return st.check(ctx, a, b, unescaped, tss[3]) })
 						}
 					}
 				}
@@ -843,31 +949,27 @@ func enumerate(ctx *seq.Ctx) {
 }
 
 func main() {
-	if p := os.Getenv("VERIF_CPUPROFILE"); p != "" {
-		f, _ := os.Create(p)
-		pprof.StartCPUProfile(f)
-		go func() { time.Sleep(20 * time.Second); pprof.StopCPUProfile(); f.Close(); os.Exit(0) }()
-	}
+	debug.SetGCPercent(400)
 	logger.SetLogLevel(logger.ErrorLevel)
-	// The serializer's buffer is 2 x defs.InputLogMaxRecordBytes, allocated per serializer. Every case uses a fresh
-	// serializer, so the limits are scaled to what the largest enumerated record needs (2 x 65537 bytes + fillers);
-	// every generated record is within the configured record limit (overflow is property C07's concern).
-	defs.InputLogMaxMessageBytes = 192 * 1024
-	defs.InputLogMaxRecordBytes = defs.InputLogMaxMessageBytes + 256
+	// defs limits stay at their production defaults (record limit 1 MiB + 256, serializer buffer twice that); the largest
+	// enumerated record is 2 x 65537 bytes + fillers, far inside the limit (overflow is property C07's concern).
 	seq.Main(&seq.Config{
 		Property: "C10",
 		Level:    "exploration",
 		Rule: "bounded-exhaustive product through fluentdforward Config.VerifyConfig+NewSerializer+SerializeRecord with the real copy/unescape/inline rewriters: " +
-			"layouts {3,16 named fields} (thorough adds 14, 15 and 2 reserved unnamed slots) x role of field A x role of field B, each from {plain, environment, hidden, " +
+			"layouts {3,16 named fields; 14, 15, 3+2 reserved, 16+2 reserved unnamed slots} x role of field A x role of field B, each from {plain, environment, hidden, " +
 			"rewritten[copy], rewritten[unescape], rewritten[inline other,copy], rewritten[inline other,unescape]} x record.Unescaped {false,true} x timestamps " +
 			"{epoch, ns 0/1/999999999, 2^31-1.999999999, 2^31} (thorough adds a non-UTC location and 2^32-1) x value of A x value of B, each value from lengths " +
 			"{0,1,15,16,31,32,255,256,65535,65536,65537} x content classes {ASCII, 0x00, 0xFF, multi-byte, dense \\b \\f \\n \\r \\t \\\\ \\x, trailing backslash, only backslashes, mixed} " +
-			"(thorough adds 8 more non-escape second bytes and a single escape at start/middle/end); 16-field layouts carry 14 fixed filler fields (empty and non-empty environment/hidden/plain, " +
+			"(thorough adds 8 more non-escape second bytes and a single escape at start/middle/end). Quick crosses listed x listed values with timestamps {ns 999999999, 2^31} on layouts 3 and 16 and " +
+			"small x small values (lengths 0,1,16,65536 x ASCII, mixed) with every other timestamp and layout; thorough crosses (all x listed U listed x all) values with those two timestamps and listed x listed with every other timestamp, on all six layouts " +
+			"(a superset of the full planned product). 16-field layouts carry 14 fixed filler fields (empty and non-empty environment/hidden/plain, " +
 			"keys of 15/16/31/32/255/256 bytes, values of 15/16/31/32/255/256 bytes, raw escapes in a plain field); plus 14-19 environment fields for the nested map header. " +
-			"Each case: fresh serializer and fresh record; output decoded token by token with vmihailenco/msgpack and again as fluentlib forwardprotocol.EventEntry; " +
+			"Each case: serializer buffer poisoned with 0xC1, fresh record; output decoded token by token with vmihailenco/msgpack and again as fluentlib forwardprotocol.EventEntry; " +
 			"non-trivial = at least one of A, B is non-empty and not hidden",
 		Assumptions: []string{
-			"defs.InputLogMaxMessageBytes is scaled to 192 KiB in the harness process (serializer buffer = 2 x record limit); every generated record is within the record limit, buffer overflow is C07",
+			"defs limits at production defaults; every generated record (<= 2 x 65537 bytes + ~1.5 KB of fillers) is within the record limit, buffer overflow is C07",
+			"the serializer object is long-lived (one per configuration, as in the agent); before each case its buffer is overwritten with 0xC1 bytes (never valid MessagePack) past the largest possible output of the case, so the pre-state is a function of the case alone",
 			"field values may be encoded with any str/bin header width (MessagePack does not require the shortest form); map entry order is not compared",
 			"documentation is silent on whether an 'unescape' step after 'inline' also unescapes the inlined prefix: both results are accepted; the inlined prefix is otherwise the other field's raw value",
 			"a rewritten field whose own value is empty is not emitted even when the inlined field is non-empty (statement: exactly the non-empty fields)",
